@@ -37,6 +37,11 @@ CLAIMS = {
         technique='symbolic execution (CrossHair/z3) of RepeatItem arithmetic for unbounded positions, letter/roman kernels on symbolic positions/digits; differential symbolic execution of repeat templates vs reference',
         text='Position arithmetic decided for all 0 <= pos < length (no bound); letter/roman for the stated ranges; rendering (iterable kinds, unpacking, nesting, separators) per enumerated template over symbolic sequence lengths.',
         note=G_NOTE),
+    'C07': dict(
+        engine='G', level='translation_validation', design_ref='DESIGN.md 4 C07',
+        technique='differential symbolic execution (CrossHair/z3): compiled start-tag code vs attribute map derived from the property statement; dynamic values and dictionary key presence symbolic',
+        text='Per enumerated (static attributes x tal:attributes list x boolean configuration) the solver decides the rendered attribute list for every combination of dynamic value classes and dictionary contents.',
+        note=G_NOTE),
     'C03': dict(
         engine='X+Z', level='model_checking', design_ref='DESIGN.md 4 C03',
         technique='symbolic execution (CrossHair/z3) of iter_xml/match_tag/emitters on shape-enumerated character-symbolic strings; z3 regex inclusion from the live lexer pattern',
